@@ -44,6 +44,15 @@ package scen
 //   - value-lazy-* (c04_lazy.go): a SearchValue consumer that reads only when
 //     the scheduler says so and pauses for virtual minutes between reads while
 //     answers pile up behind it.
+//
+// Inputs and seams drawn since wave 6 (c04_wave6.go says which clause each one
+// exercises): requested keys outside the configured validator's namespaces
+// (with responders and local storage holding correctly keyed records for
+// them), clients without any starting point (empty routing table; the
+// accelerated client before its first crawl ended or after a crawl that found
+// nobody), and - on the accelerated client - the validator as a
+// scheduler-owned seam, so that validations of concurrently received answers
+// complete in any order relative to each other and to further deliveries.
 
 import (
 	"bytes"
@@ -58,6 +67,7 @@ import (
 	dht "github.com/libp2p/go-libp2p-kad-dht"
 	"github.com/libp2p/go-libp2p-kad-dht/amino"
 	pb "github.com/libp2p/go-libp2p-kad-dht/pb"
+	record "github.com/libp2p/go-libp2p-record"
 	recpb "github.com/libp2p/go-libp2p-record/pb"
 	"github.com/libp2p/go-libp2p/core/peer"
 	"github.com/libp2p/go-libp2p/core/routing"
@@ -75,7 +85,9 @@ func init() {
 		Stub: []string{"host.Host/network (simhost)", "pb.MessageSender (level A, simnet.Sender)", "remote peers (scripted responders)", "record validator (harness rank validator, time-aware)", "datastore (simds, not parking)"},
 		Faults: []string{"fault_rec_invalid", "fault_rec_miskeyed", "fault_rec_empty", "fault_rpc_error", "fault_dial_fail", "fault_cancel", "time_advance",
 			"probe_found", "probe_notfound", "probe_stream_multi", "probe_search_ended_early", "probe_local_valid", "probe_local_expired", "probe_local_expired_midsearch", "probe_peer_serves_local_bytes_valid", "probe_peer_serves_local_bytes_expired_at_start", "probe_peer_serves_local_bytes_expired_midsearch", "probe_value_expired_midsearch", "probe_bestknown_checked",
-			"probe_opt_offline", "probe_opt_expired", "probe_opt_offline_local_not_valid", "probe_local_never_valid", "probe_local_outlived_max_age", "probe_stamp_valid_value_held_past_requesters_max_age", "probe_stamp_valid_value_from_the_future", "probe_stamp_valid_value_unparsable"},
+			"probe_opt_offline", "probe_opt_expired", "probe_opt_offline_local_not_valid", "probe_local_never_valid", "probe_local_outlived_max_age", "probe_stamp_valid_value_held_past_requesters_max_age", "probe_stamp_valid_value_from_the_future", "probe_stamp_valid_value_unparsable",
+			"probe_key_outside_namespaces", "probe_key_outside_record_acceptable_to_unregistered_validator", "probe_key_outside_local_record", "probe_key_registered_namespace_empty_rest_found",
+			"probe_no_starting_points", "probe_no_starting_points_local_valid"},
 	})
 }
 
@@ -152,6 +164,16 @@ type c04Cfg struct {
 	StampSeed int
 	// Lazy: the SearchValue consumer reads only when the scheduler says so
 	Lazy bool
+	// KeyClass: where the requested key lies relative to the configured
+	// validator's namespaces (c04Key*, c04_wave6.go)
+	KeyClass int
+	// NoPeers: the client has no starting point: 1 empty routing table (the
+	// accelerated client: a crawl that found nobody), 2 the accelerated
+	// client's first crawl is still running
+	NoPeers int
+	// SlowVal: the client's validator is a scheduler-owned seam (accelerated
+	// client only, c04_wave6.go)
+	SlowVal bool
 }
 
 // c04MaxAge is one choice of the requester's MaxRecordAge option.
@@ -220,6 +242,9 @@ type c04Sut struct {
 	// old (it never goes through the client: "a record that was written by
 	// somebody else / an older version / under another configuration")
 	plant func(key string, old []byte, mutate func(*recpb.Record)) bool
+	// dss: the datastore(s) behind the client's value store(s), for records
+	// written by ANOTHER value store (c04World.foreignPut)
+	dss   []*simds.DS
 	close func()
 }
 
@@ -238,6 +263,7 @@ type c04World struct {
 	sel  func(key string, vals [][]byte) (int, error)
 	hist *c04Hist // multi-search histories only (c04_history.go)
 	lazy *c04Lazy // lazy-consumer scenarios only (c04_lazy.go)
+	slow *c04Slow // validator-seam runs only (c04_wave6.go)
 	resp map[peer.ID]*c04Resp
 	side map[peer.ID]string // dual: "wan" / "lan"
 
@@ -245,6 +271,7 @@ type c04World struct {
 	localStored       bool
 	localValidAtStart bool
 	localPlanted      bool          // the stored record was rewritten in the datastore: never valid for the key
+	localForeign      bool          // the stored record was written by another value store: the key lies outside the client's namespaces
 	localStoredAt     time.Duration // when the client stored it (its age counts from here)
 
 	op         *Op
@@ -288,6 +315,21 @@ func c04GenCfg(s *sim.Sim, variant string, lazy bool) c04Cfg {
 	n := s.Draw("key", 1<<12)
 	c.Key = fmt.Sprintf("/r/key-%d", n)
 	c.Other = fmt.Sprintf("/r/other-%d", n)
+	if s.Chance("key-outside", 1, 5) {
+		// outside the configured validator's namespaces (or, one class, on the
+		// inner boundary); "other" stays a key of the registered namespace
+		c.KeyClass = 1 + s.Draw("key-class", c04KeyClasses-1)
+		c.Key = c04KeyOfClass(c.KeyClass, n)
+	}
+	if s.Chance("no-starting-points", 1, 10) {
+		c.NoPeers = 1
+		if variant == "fullrt" && s.Chance("first-crawl-still-running", 1, 2) {
+			c.NoPeers = 2
+		}
+	}
+	if variant == "fullrt" && !lazy {
+		c.SlowVal = s.Chance("validator-seam", 1, 3)
+	}
 	c.Profile = s.Draw("profile", 3)
 	c.Ranks = s.Range("ranks", 1, 8)
 	c.Local = s.Draw("local", 6)
@@ -304,6 +346,9 @@ func c04GenCfg(s *sim.Sim, variant string, lazy bool) c04Cfg {
 	c.MaxAge = s.Draw("max-record-age", len(c04MaxAges))
 	if c.Stamps = s.Draw("stamps", 3); c.Stamps != 0 {
 		c.StampSeed = s.Draw("stamp-seed", 1<<16)
+	}
+	if c.SlowVal && c.Local == 4 {
+		c.Local = 1 // see c04_wave6.go: nothing expires while a validation is parked
 	}
 	if lazy {
 		// see c04_lazy.go for what is left out of the lazy scenarios and why
@@ -328,12 +373,21 @@ func c04GenCfg(s *sim.Sim, variant string, lazy bool) c04Cfg {
 
 // c04Opts are the DHT options every variant shares: the rank validator under
 // namespace "r" (next to the default /pk one) and the drawn MaxRecordAge.
-func c04Opts(rv rankValidator, maxAge int) []dht.Option {
+func c04Opts(rv record.Validator, maxAge int) []dht.Option {
 	opts := []dht.Option{dht.NamespacedValidator("r", rv)}
 	if m := c04MaxAges[maxAge]; m.Set {
 		opts = append(opts, dht.MaxRecordAge(m.D))
 	}
 	return opts
+}
+
+// clientValidator is the validator the CLIENT gets under namespace "r": the
+// rank validator itself, or the seam wrapper around it.
+func (w *c04World) clientValidator() record.Validator {
+	if w.slow != nil {
+		return w.slow.v
+	}
+	return w.val
 }
 
 // c04RoutingOpts are the routing options of one call.
@@ -392,7 +446,7 @@ func c04PlantIn(d *simds.DS, key string, old []byte, mutate func(*recpb.Record))
 
 func c04BuildStandard(w *c04World) error {
 	d := simds.New(w.s, "ds")
-	h, err := newH1(w.s, w.u, w.cfg.K, w.cfg.Alpha, w.cfg.Beta, append(c04Opts(w.val, w.cfg.MaxAge), dht.Datastore(d))...)
+	h, err := newH1(w.s, w.u, w.cfg.K, w.cfg.Alpha, w.cfg.Beta, append(c04Opts(w.clientValidator(), w.cfg.MaxAge), dht.Datastore(d))...)
 	if err != nil {
 		return err
 	}
@@ -403,6 +457,7 @@ func c04BuildStandard(w *c04World) error {
 		seed:   func(peers []*simnet.Peer) { h.Seed(peers) },
 		stored: func(val []byte) bool { return c04StoredIn(d, val) },
 		plant:  func(key string, old []byte, m func(*recpb.Record)) bool { return c04PlantIn(d, key, old, m) },
+		dss:    c04DSS(d),
 		close: func() {
 			_ = h.DHT.Close()
 			_ = h.Host.Close()
@@ -451,7 +506,7 @@ func (w *c04World) genResponders(peers []*simnet.Peer, knowable []*simnet.Peer) 
 			switch {
 			case len(valids) > 0 && rng.Intn(4) == 0: // byte-identical to another responder's value
 				r.Val = valids[rng.Intn(len(valids))].Val
-			case !c.Lazy && rng.Intn(6) == 0: // expires while the search may still be running
+			case !c.Lazy && !c.SlowVal && rng.Intn(6) == 0: // expires while the search may still be running
 				r.Sub = 1
 				r.Val = rankValue(rng.Intn(c.Ranks), t0.Add(time.Duration(1+rng.Intn(4000))*time.Millisecond+time.Duration(i)), c.Key)
 			default:
@@ -600,9 +655,16 @@ func (w *c04World) actions() []sim.Action {
 			if w.lazy != nil && !w.lazy.room(w, rpc) {
 				continue // enabled again once the consumer has read
 			}
+			if w.slow != nil && !w.slow.room(w, rpc) {
+				continue // enabled again once a validation has completed
+			}
 			acts = append(acts, sim.Action{ID: p.ID, Do: func() { w.answer(p, rpc) }})
 		case "consume":
 			acts = append(acts, w.lazy.actions(w, p)...)
+		case "validate":
+			if w.slow != nil {
+				acts = append(acts, sim.Action{ID: p.ID, Do: func() { w.slow.complete(w, p) }})
+			}
 		}
 	}
 	return acts
@@ -638,6 +700,14 @@ func (w *c04World) answer(p *sim.Parked, rpc *simnet.RPC) {
 		sup.KeyOK = string(rec.GetKey()) == w.cfg.Key
 		sup.ValidNow = sup.KeyOK && len(rec.GetValue()) > 0 && w.validate(w.cfg.Key, rec.GetValue()) == nil
 		w.supplies = append(w.supplies, sup)
+		if w.slow != nil && sup.ValidNow {
+			w.slow.delivered(w, len(w.supplies)-1)
+		}
+		if w.cfg.KeyClass != c04KeyRegistered && w.cfg.KeyClass != c04KeyRegisteredEmpty && sup.KeyOK && w.val.Validate(w.cfg.Key, rec.GetValue()) == nil {
+			// a record the rank validator would accept if it were asked: it is
+			// not, the key is not in its namespace
+			s.Count("probe_key_outside_record_acceptable_to_unregistered_validator")
+		}
 		if w.hist != nil {
 			w.hist.delivered(w, &sup)
 		}
@@ -711,20 +781,29 @@ func (w *c04World) putLocal() {
 	}
 	w.localVal = rankValue(c.LocalRank, exp, c.Key)
 	val := w.localVal
-	op := w.ops.Go(s, "PutValue", func() (any, error) {
-		return nil, w.sut.client.PutValue(context.Background(), c.Key, val)
-	})
-	s.Quiesce()
-	for i := 0; i < 50 && !op.Done; i++ { // nothing should be parked; be robust anyway
-		ps := s.Parked()
-		if len(ps) == 0 {
-			s.Sleep(time.Second)
-			continue
-		}
-		releaseBenign(s, ps[0])
+	if c04NSV(w.val).ValidatorByKey(c.Key) == nil {
+		// The key lies outside the client's namespaces: the client itself refuses
+		// to store anything for it. The record (one the rank validator would
+		// accept, were it registered for this key) is written by another value
+		// store over the same datastore.
+		w.localStored = w.foreignPut(c.Key, val)
+		w.localForeign = w.localStored
+	} else {
+		op := w.ops.Go(s, "PutValue", func() (any, error) {
+			return nil, w.sut.client.PutValue(context.Background(), c.Key, val)
+		})
 		s.Quiesce()
+		for i := 0; i < 50 && !op.Done; i++ { // nothing should be parked; be robust anyway
+			ps := s.Parked()
+			if len(ps) == 0 {
+				s.Sleep(time.Second)
+				continue
+			}
+			releaseBenign(s, ps[0])
+			s.Quiesce()
+		}
+		w.localStored = op.Done && w.sut.stored(val)
 	}
-	w.localStored = op.Done && w.sut.stored(val)
 	w.localStoredAt = s.Now()
 	if c.Local == 5 && w.localStored {
 		planted := c04PlantValue(c.LocalPlant, val, c.LocalRank, exp, c.Key, c.Other)
@@ -800,7 +879,11 @@ func c04RunValue(s *sim.Sim, variant string, lazy bool) {
 	if lazy {
 		w.lazy = &c04Lazy{}
 	}
-	w.validate = w.val.Validate
+	if c.SlowVal {
+		w.slow = &c04Slow{v: &c04SeamValidator{s: s, inner: w.val}}
+	}
+	// the oracle's validator: the configured one (namespaced), see c04NSV
+	w.validate, w.sel = c04NSValidate(w.val), c04NSSelect(w.val)
 	w.u = simnet.NewUniverse(uint64(s.Draw("universe", 1<<16)), c.N)
 	var err error
 	switch variant {
@@ -837,7 +920,22 @@ func c04RunValue(s *sim.Sim, variant string, lazy bool) {
 		if len(seeds) == 0 {
 			seeds = []*simnet.Peer{real[rng.Intn(len(real))]}
 		}
-		w.sut.seed(seeds)
+		switch c.NoPeers {
+		case 0:
+			w.sut.seed(seeds)
+		case 1: // nobody to start from (accelerated client: the crawl found nobody)
+			w.sut.seed(nil)
+		default: // 2: the accelerated client's first crawl stays parked
+		}
+	}
+	if c.NoPeers != 0 {
+		s.Count("probe_no_starting_points")
+		if variant == "fullrt" {
+			s.Count([]string{"", "probe_fullrt_crawl_found_nobody", "probe_fullrt_first_crawl_still_running"}[c.NoPeers])
+		}
+	}
+	if w.slow != nil {
+		w.slow.v.armed.Store(true)
 	}
 
 	// 3. the operation under test
@@ -854,12 +952,18 @@ func c04RunValue(s *sim.Sim, variant string, lazy bool) {
 	if c.Search {
 		name = "SearchValue"
 	}
-	if w.lazy != nil && w.localStored && !w.localPlanted && w.val.Validate(c.Key, w.localVal) == nil {
+	if c.KeyClass != c04KeyRegistered && c.KeyClass != c04KeyRegisteredEmpty {
+		s.Count("probe_key_outside_namespaces")
+		if w.localStored {
+			s.Count("probe_key_outside_local_record")
+		}
+	}
+	if w.lazy != nil && w.localStored && !w.localPlanted && w.validate(c.Key, w.localVal) == nil {
 		w.lazy.pipe++ // the search hands the local record to its value loop first
 	}
 	w.op = w.ops.Go(s, name, func() (any, error) {
 		w.startAt = s.Now()
-		w.localValidAtStart = w.localStored && !w.localPlanted && w.val.Validate(c.Key, w.localVal) == nil
+		w.localValidAtStart = w.localStored && !w.localPlanted && w.validate(c.Key, w.localVal) == nil
 		if !c.Search {
 			v, err := w.sut.client.GetValue(ctx, c.Key, opts...)
 			return v, err
@@ -868,7 +972,7 @@ func c04RunValue(s *sim.Sim, variant string, lazy bool) {
 		if err != nil {
 			return nil, err
 		}
-		w.consume(ch, c.Key, w.val.Validate)
+		w.consume(ch, c.Key, w.validate)
 		return nil, nil
 	})
 	s.Quiesce()
@@ -879,7 +983,7 @@ func c04RunValue(s *sim.Sim, variant string, lazy bool) {
 		if !s.Step() || w.op.Done {
 			break
 		}
-		if c.CancelAt > 0 && s.Steps >= c.CancelAt && w.cancelStep == 0 {
+		if c.CancelAt > 0 && s.Steps >= c.CancelAt && w.cancelStep == 0 && (w.slow == nil || len(s.ParkedKind("validate")) == 0) {
 			w.cancelStep = s.Steps
 			s.Tracef("cancel")
 			s.Count("fault_cancel")
@@ -890,6 +994,9 @@ func c04RunValue(s *sim.Sim, variant string, lazy bool) {
 		if s.Chance("tick", 1, 8) {
 			s.Sleep(time.Duration(1+s.Draw("tick-ms", 2000)) * time.Millisecond)
 			s.Count("time_advance")
+			if w.slow != nil && len(s.ParkedKind("validate")) > 0 {
+				s.Count("probe_slowval_time_passed_during_validation")
+			}
 			if w.op.Done {
 				continue
 			}
@@ -1004,6 +1111,10 @@ func (w *c04World) provenance(val []byte, upto int) (rule, detail string) {
 		if w.localValidAtStart {
 			return "", ""
 		}
+		if w.localForeign {
+			return "yield-invalid-local", fmt.Sprintf("the %s client yielded %s, the content of a record in its local storage filed under the requested key %q, which lies outside every namespace of the configured (namespaced) validator - that validator rejects every value for such a key (%v); the record was written by another value store over the same datastore (one configured with a validator for it): the local record enters the search without being judged by the CONFIGURED validator",
+				w.cfg.Variant, c04Short(val), w.cfg.Key, w.validate(w.cfg.Key, val))
+		}
 		if w.localPlanted {
 			also := ""
 			if invalid != nil {
@@ -1037,7 +1148,7 @@ func (w *c04World) provenance(val []byte, upto int) (rule, detail string) {
 	case misKeyed != nil:
 		return "yield-miskeyed", fmt.Sprintf("yielded %s, which %s supplied in a record filed under another key than the requested %q", c04Short(val), w.u.Name(misKeyed.Peer), w.cfg.Key)
 	case invalid != nil:
-		return "yield-invalid", fmt.Sprintf("yielded %s, which %s supplied and the validator rejected at the delivery instant (step %d)", c04Short(val), w.u.Name(invalid.Peer), invalid.Step)
+		return "yield-invalid", fmt.Sprintf("yielded %s, which %s supplied and the validator rejected at the delivery instant (step %d)%s", c04Short(val), w.u.Name(invalid.Peer), invalid.Step, w.keyNote())
 	}
 	return "yield-unsupplied", fmt.Sprintf("yielded %s, which neither local storage nor any delivered reply supplied", c04Short(val))
 }
@@ -1217,6 +1328,12 @@ func (w *c04World) check() {
 			}
 		} else if final != nil {
 			s.Count("probe_found")
+			if c.KeyClass == c04KeyRegisteredEmpty {
+				s.Count("probe_key_registered_namespace_empty_rest_found")
+			}
+		}
+		if c.NoPeers != 0 && w.localValidAtStart && !localMaybeGone {
+			s.Count("probe_no_starting_points_local_valid")
 		}
 		if anyValid && c.Offline {
 			s.Count("probe_opt_offline_with_valid_supply")
